@@ -47,6 +47,11 @@ type c14Prog struct {
 	// RealUDP: loopback UDP sockets instead of the in-memory ones, so that the
 	// Linux batch read loops and the batch transmit path run under the detector
 	RealUDP bool
+	// CloseAt > 0: once this many calls have been made, one session (CloseWhich
+	// picks it; 0 is the one half of the goroutines hammer) is closed while the
+	// other goroutines keep calling its methods
+	CloseAt    int
+	CloseWhich int
 }
 
 // c14Sock is a socket the program can make fail.
@@ -292,6 +297,23 @@ func c14Run(p c14Prog, pc *pairCounter) (calls int64) {
 			f.c.fail()
 		}()
 	}
+	if p.CloseAt > 0 {
+		wg.Add(1)
+		go func() {
+			defer wg.Done()
+			for total.Load() < int64(p.CloseAt) {
+				select {
+				case <-stop:
+					return
+				case <-time.After(200 * time.Microsecond):
+				}
+			}
+			smu.Lock()
+			x := sessions[p.CloseWhich%len(sessions)]
+			smu.Unlock()
+			x.Close()
+		}()
+	}
 	// traffic keeps flowing: a reader drains whatever arrives on every session
 	done := make(chan struct{})
 	go func() {
@@ -378,6 +400,10 @@ func TestC14Race(t *testing.T) {
 		}
 		p.CloseFault = rng.IntN(4)
 		p.RealUDP = rng.IntN(3) == 0
+		if rng.IntN(2) == 0 {
+			p.CloseAt = 1 + rng.IntN(p.Goroutines*p.Calls)
+			p.CloseWhich = rng.IntN(4)
+		}
 		pc.mu.Lock()
 		before := pc.hits
 		pc.mu.Unlock()
@@ -389,7 +415,7 @@ func TestC14Race(t *testing.T) {
 		pc.mu.Unlock()
 		rec.Case(hx.Hash64(p), co > 0, "cipher_"+p.Cipher, fmt.Sprintf("fec_%v", p.FEC[0] > 0),
 			fmt.Sprintf("listener_socket_fails_during_calls_%v", p.FailListenerAt > 0), fmt.Sprintf("client_socket_fails_during_calls_%v", p.FailClientAt > 0),
-			fmt.Sprintf("close_fault_%d", p.CloseFault), fmt.Sprintf("real_udp_sockets_%v", p.RealUDP))
+			fmt.Sprintf("close_fault_%d", p.CloseFault), fmt.Sprintf("real_udp_sockets_%v", p.RealUDP), fmt.Sprintf("close_while_methods_are_being_called_%v", p.CloseAt > 0))
 		if rec.WantSample() {
 			rec.Sample(p)
 		}
